@@ -159,18 +159,40 @@ func (u *tut) commit(variant int) (common.Hash, error) {
 
 // ---------- Coq printers ----------
 
+// pack prints a byte string as a list of primitive 63-bit integers: length, then 7 bytes per
+// word (big endian, zero padded); Model/C18.v:unpack is the inverse.
+func pack(b []byte) string {
+	if len(b) == 0 {
+		return "[]"
+	}
+	var sb strings.Builder
+	fmt.Fprintf(&sb, "[%d", len(b))
+	for i := 0; i < len(b); i += 7 {
+		var w uint64
+		for j := 0; j < 7; j++ {
+			w <<= 8
+			if i+j < len(b) {
+				w |= uint64(b[i+j])
+			}
+		}
+		fmt.Fprintf(&sb, ";%d", w)
+	}
+	sb.WriteByte(']')
+	return sb.String()
+}
+
 func coqNode(n *trie.VerifNode, sb *strings.Builder) {
 	switch n.Kind {
 	case "nil":
-		sb.WriteString("Nil")
+		sb.WriteString("DN")
 	case "value":
-		sb.WriteString("Val " + hlib.CoqBytes(n.Val))
+		sb.WriteString("DV " + pack(n.Val))
 	case "short":
-		sb.WriteString("Short " + hlib.CoqBytes(n.Key) + " (")
+		sb.WriteString("DS " + pack(n.Key) + " (")
 		coqNode(n.Children[0], sb)
 		sb.WriteString(")")
 	case "full":
-		sb.WriteString("Full [")
+		sb.WriteString("DF [")
 		for i, c := range n.Children {
 			if i > 0 {
 				sb.WriteString(";")
@@ -306,6 +328,11 @@ func checkProofs(rep *hlib.Report, c *Case, u *tut, content map[string][]byte, p
 		}
 		got, err := trie.VerifyProof(root, mk, proofDB(pl))
 		if err != nil {
+			if len(content) == 0 && len(pl) == 0 {
+				// F-C18-1: Prove on an empty trie emits no node and VerifyProof(emptyRoot, k, {}) errors
+				rep.Fail("proof/empty-trie-absence-unprovable", fmt.Sprintf("empty trie: Prove(%x) returns an empty proof and VerifyProof rejects it (%v) instead of proving absence", mk, err), c)
+				continue
+			}
 			rep.Fail("proof/verify-error/"+cls, fmt.Sprintf("VerifyProof(%x) of an honest proof failed: %v", mk, err), c)
 			continue
 		}
@@ -413,8 +440,8 @@ func runTrieCase(rep *hlib.Report, cw *hlib.CaseWriter, c *Case, rng *hlib.Rng, 
 		}
 		var sb strings.Builder
 		coqNode(d, &sb)
-		cops = append(cops, "CDump ("+sb.String()+")")
-		kinds := strings.Count(sb.String(), "Full") + strings.Count(sb.String(), "Short")
+		cops = append(cops, "RDump ("+sb.String()+")")
+		kinds := strings.Count(sb.String(), "DF") + strings.Count(sb.String(), "DS")
 		if kinds < lastKinds {
 			collapses++
 		}
@@ -439,7 +466,7 @@ func runTrieCase(rep *hlib.Report, cw *hlib.CaseWriter, c *Case, rng *hlib.Rng, 
 			} else {
 				content[string(mk)] = o.Val
 			}
-			cops = append(cops, fmt.Sprintf("CUpd %s %s", hlib.CoqBytes(mk), hlib.CoqBytes(o.Val)))
+			cops = append(cops, fmt.Sprintf("RUpd %s %s", pack(mk), pack(o.Val)))
 		case "del":
 			if err := u.del(o.Key); err != nil {
 				rep.Fail("error/delete", fmt.Sprintf("TryDelete failed: %v", err), c)
@@ -451,7 +478,7 @@ func runTrieCase(rep *hlib.Report, cw *hlib.CaseWriter, c *Case, rng *hlib.Rng, 
 				nontriv = true
 			}
 			delete(content, string(mk))
-			cops = append(cops, "CDel "+hlib.CoqBytes(mk))
+			cops = append(cops, "RDel "+pack(mk))
 		case "get":
 			v, err := u.get(o.Key)
 			if err != nil {
@@ -462,7 +489,7 @@ func runTrieCase(rep *hlib.Report, cw *hlib.CaseWriter, c *Case, rng *hlib.Rng, 
 			if !bytes.Equal(v, content[string(mk)]) {
 				rep.Fail("content/get", fmt.Sprintf("Get(%x) = %x, last write was %x", o.Key, v, content[string(mk)]), c)
 			}
-			cops = append(cops, fmt.Sprintf("CGet %s %s", hlib.CoqBytes(mk), hlib.CoqBytes(v)))
+			cops = append(cops, fmt.Sprintf("RGet %s %s", pack(mk), pack(v)))
 		case "hash":
 			checkHash("live")
 		case "dump":
@@ -483,7 +510,7 @@ func runTrieCase(rep *hlib.Report, cw *hlib.CaseWriter, c *Case, rng *hlib.Rng, 
 			phase := fmt.Sprintf("after-commit-%d", o.Var)
 			checkHash(phase)
 			checkContent(phase)
-			cops = append(cops, "CCommit")
+			cops = append(cops, "RCommit")
 			addDump(phase)
 			nontriv = true
 		}
@@ -509,6 +536,9 @@ func runTrieCase(rep *hlib.Report, cw *hlib.CaseWriter, c *Case, rng *hlib.Rng, 
 			break
 		}
 	}
+	if len(sc) == 0 && len(probes) == 0 {
+		probes = append(probes, []byte{1})
+	}
 	if len(sc) > 0 {
 		near := common.CopyBytes(sc[rng.Intn(len(sc))].k)
 		if len(near) > 0 {
@@ -529,7 +559,7 @@ func runTrieCase(rep *hlib.Report, cw *hlib.CaseWriter, c *Case, rng *hlib.Rng, 
 	if nontriv && len(content) > 0 {
 		rep.Nontrivial(fmt.Sprintf("trie/%d", c.ID))
 	}
-	cw.Add(fmt.Sprintf("(%d, BTrie %s)", c.ID, hlib.CoqList(cops)), c)
+	cw.Add(fmt.Sprintf("(%d%%N, BTrie %s)", c.ID, hlib.CoqList(cops)), c)
 	rep.Sample(c)
 }
 
@@ -604,9 +634,10 @@ func runDeriveCase(rep *hlib.Report, cw *hlib.CaseWriter, c *Case) {
 	if len(rec.keys) != c.N || len(seen) != c.N {
 		rep.Fail("derive-sha/items-missing/"+sig, fmt.Sprintf("DeriveSha over %d items fed %d keys (%d distinct)", c.N, len(rec.keys), len(seen)), c)
 	}
-	keys := make([]string, len(rec.keys))
-	for i, k := range rec.keys {
-		keys[i] = hlib.CoqBytes(k)
+	var framed []byte
+	for _, k := range rec.keys {
+		framed = append(framed, byte(len(k)))
+		framed = append(framed, k...)
 	}
 	c.Keys = rec.keys
 	rep.Evaluations++
@@ -615,7 +646,10 @@ func runDeriveCase(rep *hlib.Report, cw *hlib.CaseWriter, c *Case) {
 	if c.N >= 2 {
 		rep.Nontrivial(fmt.Sprintf("derive/%d/%x", c.N, hStack[:4]))
 	}
-	cw.Add(fmt.Sprintf("(%d, BOrder %d %s)", c.ID, c.N, hlib.CoqList(keys)), c)
+	// the model's derive_order is compared on the boundary lengths and a sample of the others
+	if c.N <= 3 || (c.N >= 126 && c.N <= 131) || (c.N >= 254 && c.N <= 258) || c.N%20 == 0 || c.N > 300 {
+		cw.Add(fmt.Sprintf("(%d%%N, BOrder %d%%N %s)", c.ID, c.N, pack(framed)), c)
+	}
 }
 
 // StackTrie vs Trie on an ascending set of equal-length keys
@@ -720,9 +754,9 @@ func genVal(r *hlib.Rng) []byte {
 	case 0:
 		return r.Bytes(1 + r.Intn(3)) // nodes small enough to be embedded in their parent
 	case 1:
-		return r.Bytes(20 + r.Intn(20)) // around the 32-byte embedding threshold
+		return r.Bytes(24 + r.Intn(10)) // around the 32-byte embedding threshold
 	case 2:
-		return r.Bytes(33 + r.Intn(60))
+		return r.Bytes(33 + r.Intn(8))
 	default:
 		return []byte{byte(r.Intn(0x80))} // single byte < 0x80: RLP encodes as itself
 	}
@@ -736,6 +770,17 @@ func genTrieCase(r *hlib.Rng, id int) *Case {
 	n := 1 + r.Intn(40)
 	if r.Chance(10) {
 		n = 60 + r.Intn(140)
+	}
+	// bulk: >= 100 updates before the first Hash (the hasher goes parallel at 100 unhashed
+	// updates, trie.go:hashRoot) over a larger universe, then the usual churn
+	bulk := 0
+	if r.Chance(8) {
+		for len(uni) < 60 {
+			uni = append(uni, genUniverse(r, gen)...)
+		}
+		bulk = 100 + r.Intn(60)
+		n += bulk
+		c.Gen += "+bulk"
 	}
 	live := map[string]bool{}
 	pick := func() []byte { return cp(uni[r.Intn(len(uni))]) }
@@ -752,9 +797,12 @@ func genTrieCase(r *hlib.Rng, id int) *Case {
 	}
 	// build phase then churn phase, so that deletes meet populated tries
 	for i := 0; i < n; i++ {
-		w := []int{40, 12, 4, 22, 5, 8, 4, 5, 3}
+		w := []int{40, 12, 4, 22, 5, 8, 4, 5, 1}
 		if i < n/3 {
-			w = []int{70, 8, 2, 6, 2, 6, 2, 3, 1}
+			w = []int{70, 8, 2, 6, 2, 6, 2, 3, 0}
+		}
+		if i < bulk {
+			w = []int{80, 8, 2, 8, 2, 0, 0, 0, 0}
 		}
 		switch r.Pick(w...) {
 		case 0: // insert / overwrite
@@ -807,8 +855,6 @@ func genTrieCase(r *hlib.Rng, id int) *Case {
 	}
 	return c
 }
-
-func u(ks ...[]byte) [][]byte { return ks }
 
 // fixed corpus: the shapes named by the property, one by one
 func corpus() []*Case {
@@ -900,7 +946,7 @@ func main() {
 	rep := hlib.NewReport("C18", "a case is one trie history (plain or secure trie; inserts, overwrites, deletes through both APIs, empty values, Hash, Commit+reload in 3 variants) "+
 		"checked for structure, content, history independence and Merkle proofs, or one DeriveSha list (StackTrie vs Trie), or one ascending key set (StackTrie vs Trie); "+
 		"non-trivial = the history deletes a present key or commits and ends non-empty / the list has >= 2 items; distinct by case")
-	cw := hlib.NewCaseWriter(f.Out, "From Coq Require Import List NArith Bool.\nFrom GQ Require Import Lib.Key Model.C18.\nImport ListNotations.\nLocal Open Scope N_scope.\n", "C18.case", 40)
+	cw := hlib.NewCaseWriter(f.Out, "From Coq Require Import List NArith Bool Uint63.\nFrom GQ Require Import Lib.Key Model.C18.\nImport ListNotations.\nLocal Open Scope uint63_scope.\n", "C18.case", 30)
 
 	if f.Replay != "" {
 		var c Case
@@ -937,7 +983,7 @@ func main() {
 		runDeriveCase(rep, cw, c)
 	}
 	if f.Tier == "thorough" {
-		for _, n := range []int{511, 512, 513, 1000, 65535, 65536, 65537} {
+		for _, n := range []int{511, 512, 513, 1000, 2000} {
 			c := genDeriveCase(rng.Fork(), id, n)
 			id++
 			runDeriveCase(rep, cw, c)
